@@ -81,7 +81,8 @@ def parseParty (r : String) : Party :=
     already issued and those waiting for the block cache's mutex (they run when the commit returns) -/
 structure CS where
   c : Conc String String String
-  bc : BC String String String
+  m : Nat                                                   -- number of committer threads (thread ids 0 .. m-1)
+  bc : BC String String String                              -- block cache of committer 0 (the writers' target)
   tcs : List (String × TC String String String String)
   issued : List Nat
   waiting : List Nat
@@ -102,31 +103,43 @@ def applyWrite (cs : CS) : Party → CS
     | none => cs
   | .get _ _ => cs
 
-def committerPc (c : Conc String String String) : Option (CPc String String String) :=
-  match c.threads with
-  | Thread.committer m :: _ => some m.pc
+def committerPcAt (c : Conc String String String) (t : Nat) : Option (CPc String String String) :=
+  match c.threads[t]? with
+  | some (Thread.committer m) => some m.pc
   | _ => none
 
-/-- when the commit returns: the block cache is reset if the commit took effect, then the waiting writers run -/
+def committerPc (c : Conc String String String) : Option (CPc String String String) := committerPcAt c 0
+
+/-- when `sc.lock` is free, the first committer that is still waiting for it takes it (in the real code it is blocked
+    inside `sc.lock.Lock()` and proceeds to its first yield point by itself) -/
+def autoAcquire (cs : CS) : CS :=
+  if cs.c.lock.isSome then cs else
+    match (List.range cs.m).find? (fun t => match committerPcAt cs.c t with | some .start => true | _ => false) with
+    | some t => { cs with c := cs.c.step t }
+    | none => cs
+
+/-- when commit 0 returns: its block cache is reset if the commit took effect, then the waiting writers run -/
 def afterCommitStep (parties : List Party) (before : Option (CPc String String String)) (cs : CS) : CS :=
   match before, committerPc cs.c with
   | some (.done _), _ => cs
   | _, some (.done eff) =>
     let cs1 := if eff then { cs with bc := { cs.bc with cache := [], committed := true } } else cs
-    let cs2 := cs1.waiting.foldl (fun acc t => match parties[t - 1]? with | some p => applyWrite acc p | none => acc) cs1
+    let cs2 := cs1.waiting.foldl (fun acc t => match parties[t - cs.m]? with | some p => applyWrite acc p | none => acc) cs1
     { cs2 with waiting := [] }
   | _, _ => cs
 
 /-- one scheduled step of thread `t` (skipped when the thread cannot run) -/
 def concStep (parties : List Party) (cs : CS) (t : Nat) : CS :=
-  if t = 0 then
-    if cs.c.enabled 0 then
+  if t < cs.m then
+    -- a committer at `start` never steps by schedule: it acquires the lock as soon as it is free (`autoAcquire`)
+    let atStart := match committerPcAt cs.c t with | some .start => true | _ => false
+    if cs.c.enabled t && !atStart then
       let before := committerPc cs.c
-      let cs1 := { cs with c := cs.c.step 0, trace := s!"0:{tlabel cs.c 0}" :: cs.trace }
-      afterCommitStep parties before cs1
+      let cs1 := { cs with c := cs.c.step t, trace := s!"{t}:{tlabel cs.c t}" :: cs.trace }
+      autoAcquire (if t = 0 then afterCommitStep parties before cs1 else cs1)
     else cs
   else
-    match parties[t - 1]? with
+    match parties[t - cs.m]? with
     | none => cs
     | some (Party.get _ _) =>
       if cs.c.enabled t then { cs with c := cs.c.step t, trace := s!"{t}:{tlabel cs.c t}" :: cs.trace } else cs
@@ -139,8 +152,10 @@ def concStep (parties : List Party) (cs : CS) (t : Nat) : CS :=
         | _ => { cs1 with waiting := cs1.waiting ++ [t] }      -- Commit holds the block cache's mutex until it returns
 
 def canRun (parties : List Party) (cs : CS) (t : Nat) : Bool :=
-  if t = 0 then cs.c.enabled 0 else
-    match parties[t - 1]? with
+  if t < cs.m then
+    cs.c.enabled t && !(match committerPcAt cs.c t with | some .start => true | _ => false)
+  else
+    match parties[t - cs.m]? with
     | some (Party.get _ _) => cs.c.enabled t
     | some _ => !cs.issued.contains t
     | none => false
@@ -152,35 +167,46 @@ def finishThread (parties : List Party) (t : Nat) : Nat → CS → CS
 def finishAll (parties : List Party) (n : Nat) (cs : CS) : CS :=
   (List.range n).foldl (fun acc t => finishThread parties t 100000 acc) cs
 
-def runConc (s : S) (bid order readers sched : String) : S × String :=
-  match alookup s.bcs bid with
+def runConc (s : S) (bidspec order readers sched : String) : S × String :=
+  let bids := bidspec.splitOn "+"
+  match bids.mapM (fun b => (alookup s.bcs b).map (fun bc => (b, bc))) with
   | none => (s, "bad-op")
-  | some bc =>
+  | some [] => (s, "bad-op")
+  | some ((bid0, bc0) :: rest) =>
     let parties : List Party := if readers = "-" then [] else (readers.splitOn ",").map parseParty
     let ths : List (Thread String String String) := parties.map (fun p =>
       match p with
       | .get k h => Thread.reader (Reader.init k h)
       | _ => Thread.reader ⟨"", "", .done none⟩)          -- placeholder: writers are stepped by the driver
-    let c0 : Conc String String String :=
-      { sc := s.sc, lock := none, threads := Thread.committer ⟨bc.hash, bc.prev, orderedWrites order bc, .start⟩ :: ths }
+    let committers : List (Thread String String String) :=
+      Thread.committer ⟨bc0.hash, bc0.prev, orderedWrites order bc0, .start⟩ ::
+        rest.map (fun (_, bc) => Thread.committer ⟨bc.hash, bc.prev, bc.cache, .start⟩)
+    let m := committers.length
+    let c0 : Conc String String String := { sc := s.sc, lock := none, threads := committers ++ ths }
     let n := c0.threads.length
-    -- launch prologue: the committer takes sc.lock before its first yield point
-    let cs0 : CS := { c := c0.step 0, bc := bc, tcs := s.tcs, issued := [], waiting := [], order := order, trace := [] }
+    -- launch prologue: committer 0 takes sc.lock before its first yield point, the others block on it
+    let cs0 : CS := autoAcquire { c := c0, m := m, bc := bc0, tcs := s.tcs, issued := [], waiting := [], order := order, trace := [] }
     let cs1 := (if sched = "-" then [] else sched.toList).foldl (fun (acc : CS) ch =>
       let t := ch.toNat - 48
       if t < n then concStep parties acc t else acc) cs0
     let cs2 := finishAll parties n cs1
-    let rs := ((cs2.c.results.drop 1).zip parties).zipIdx.map (fun ((r, p), i) =>
+    let rs := ((cs2.c.results.drop m).zip parties).zipIdx.map (fun ((r, p), i) =>
       match p with
       | .get _ _ =>
         let v := match r with
           | some (some v) => "hit:" ++ v
           | some none => "miss"
           | none => "unfinished"
-        s!"r{i + 1}={v}"
-      | _ => s!"w{i + 1}=ok")
-    ({ s with sc := cs2.c.sc, bcs := aset s.bcs bid cs2.bc, tcs := cs2.tcs },
-     " ".intercalate (("c=ok" :: rs) ++ ["trace=" ++ ",".intercalate cs2.trace.reverse]))
+        s!"r{i + m}={v}"
+      | _ => s!"w{i + m}=ok")
+    let cnames := (List.range m).map (fun i => if i = 0 then "c=ok" else s!"c{i + 1}=ok")
+    -- the other committers' block caches are reset when their commit took effect
+    let bcs' := rest.zipIdx.foldl (fun acc ((bid, bc), i) =>
+      match committerPcAt cs2.c (i + 1) with
+      | some (.done true) => aset acc bid { bc with cache := [], committed := true }
+      | _ => acc) (aset s.bcs bid0 cs2.bc)
+    ({ s with sc := cs2.c.sc, bcs := bcs', tcs := cs2.tcs },
+     " ".intercalate (cnames ++ rs ++ ["trace=" ++ ",".intercalate cs2.trace.reverse]))
 
 def step (s : S) (w : List String) : S × String :=
   match w with
